@@ -66,3 +66,7 @@ register("C07", "exploration",
          "Generated build files (sphere/cylinder/rectangle in|out, rw_restriction cones, distance_restraints, persistence_length, -cycles rings) on generated systems; residue positions captured after BuildSystem are tested with independent predicates: geometry per selected generated residue, cone on the minimum-image step from the growth predecessor, restrained pair inside [d-tol, d+tol+average pair size], ring closure on the unused ring edge, sampled end-to-end distances inside [one step, contour length].",
          "looser of tree/path average accepted as 'average pair size'; satisfiable regions by construction; time-outs (15 s) inconclusive",
          "Hypothesis-generated inputs + reference predicates", "DESIGN.md 4/C07")
+register("C15", "exploration",
+         "Generated residue definitions (all virtual-site kinds, angles, impropers, rings/stars/chains), name reuse with different content and build files with templates/volumes are run through the same pipeline gen_coords uses up to GenerateTemplates; checked: template sharing vs atom-name labelled graphs, exact atom names, centring, virtual sites against an independent implementation of the GROMACS constructions, every optimiser success verdict against independent measurements, user templates/volumes unchanged, positive sizes; plus a pure-function layer for construct_vs (value and rigid-motion equivariance).",
+         "virtual_sitesn with function 1 only; resname-keyed build entries are not generated for names shared by two different residues; 40 s time-out inconclusive",
+         "Hypothesis-generated inputs + reference-implementation and invariant oracles", "DESIGN.md 4/C15")
